@@ -118,9 +118,9 @@ Work ==
       [] Part = "tags"     -> TagPart(TagDom)
       [] Part = "file"     -> JsonSerialize(IOEnv.VERIF_OUT, [rows |-> FileTable(ndJsonDeserialize(IOEnv.VERIF_IN))])
       [] OTHER             -> \E ch \in RleAlpha : Part = RlePrefix \o ch /\ NamePart(RleDomFrom(ch))
-ASSUME Work
 
 VARIABLE dummy
-TInit == dummy = 0
+\* evaluated exactly once, while TLC computes the single initial state (an ASSUME is evaluated twice)
+TInit == dummy = 0 /\ Work
 TNext == UNCHANGED dummy
 =============================================================================
